@@ -11,6 +11,7 @@ the model of the compiler and VM are in `GluonModel.Props.C01b` (imported below)
 -/
 import GluonModel.Surf
 import GluonModel.Proofs.Surf
+import GluonModel.Props.C01b
 
 namespace GluonModel.Props.C01
 open GluonModel.Surf
